@@ -442,6 +442,21 @@ fn for_slow_inputs(tier: Tier, f: &mut dyn FnMut(&[u8]) -> bool) -> bool {
     true
 }
 
+/// chunking thresholds: the pools split an input into chunks of len / max_workers (FiberPool) or len / num_cpus (the free
+/// functions) items — lengths of at least 2 x workers + 1 that the divisor does not divide are needed to get a short last chunk
+fn long_inputs(by_cpus: bool) -> Vec<Vec<u8>> {
+    let mut lens: Vec<usize> = vec![5, 6, 7, 8, 9, 11, 13, 16, 17];
+    if by_cpus {
+        let n = std::thread::available_parallelism().map(|n| n.get()).unwrap_or(16);
+        for k in [2 * n - 1, 2 * n, 2 * n + 1, 2 * n + 3, 3 * n, 3 * n + 1, 4 * n + 1] {
+            lens.push(k);
+        }
+    }
+    lens.sort_unstable();
+    lens.dedup();
+    lens.into_iter().map(|len| (0..len).map(|i| (i % 3) as u8).collect()).collect()
+}
+
 struct StageOpts {
     fail: bool,
     panic: bool,
@@ -497,7 +512,7 @@ impl EnumSpec for Pipes {
 
     fn space(&self, tier: Tier) -> String {
         let n = max_len(tier);
-        let common = format!("inputs = all vectors of length <= {n} over {{0,1,2}} (items are (index, value)); runtimes: current-thread and 2-worker multi-thread");
+        let common = format!("inputs = all vectors of length <= {n} over {{0,1,2}} (items are (index, value)); for the chunking APIs (FiberPool::parallel_*, concurrency::parallel_*) additionally cyclic vectors of lengths 5..17 x max_workers {{1,2,3}} (and around 2x, 3x, 4x the CPU count for the functions that chunk by num_cpus) with stage/op in {{Id, +1 / concat, sum, fail on the last item}}: a length the chunk size does not divide; runtimes: current-thread and 2-worker multi-thread");
         let detail = match self.api {
             Api::PoolMap | Api::PoolForEach => "stage in {Id, +1, FailAt(i), PanicAt(i) for every i}; max_fibers {1,2,8}".to_string(),
             Api::PoolReduce => "op in {concat (non-commutative, identity []), sum (identity 0), concat failing/panicking on item i for every i}; max_fibers {1,2,8} x max_workers {1,2,3}; oracle = sequential left fold".to_string(),
@@ -534,6 +549,15 @@ impl EnumSpec for Pipes {
                         if !ok {
                             return;
                         }
+                        for max_workers in [1usize, 2, 3] {
+                            for inp in long_inputs(false) {
+                                for stage in [Stage::Id, Stage::Inc, Stage::FailAt(inp.len() - 1)] {
+                                    if !f(Case { rt, input: inp.clone(), stage, max_fibers, max_workers, ..Default::default() }) {
+                                        return;
+                                    }
+                                }
+                            }
+                        }
                     }
                 }
             }
@@ -565,6 +589,13 @@ impl EnumSpec for Pipes {
                         if !ok {
                             return;
                         }
+                        for inp in long_inputs(self.api == Api::ModReduce) {
+                            for rop in [ROp::Concat, ROp::Sum, ROp::ConcatFailAt(inp.len() - 1)] {
+                                if !f(Case { rt, input: inp.clone(), rop, max_fibers, max_workers, ..Default::default() }) {
+                                    return;
+                                }
+                            }
+                        }
                     }
                 }
             }
@@ -580,6 +611,13 @@ impl EnumSpec for Pipes {
                     });
                     if !ok {
                         return;
+                    }
+                    for inp in long_inputs(true) {
+                        for stage in [Stage::Id, Stage::Inc, Stage::FailAt(inp.len() - 1)] {
+                            if !f(Case { rt, input: inp.clone(), stage, ..Default::default() }) {
+                                return;
+                            }
+                        }
                     }
                 }
             }
